@@ -79,7 +79,7 @@ def _counter_strip(init):
             if k <= 0:
                 raise Fail('CounterMetricFamily.__init__: slice length %r' % k)
             # it must precede Metric.__init__
-            return lit, k
+            return lit, k, True
     raise Fail("CounterMetricFamily.__init__: `if name.endswith(<literal>): name = name[:-k]` not found")
 
 
@@ -96,6 +96,7 @@ def _emit(ok, types, sufs, les, strip, why=''):
         if pre in LE_CLASSES:
             out += 'def %sLe : List Char := %s\n' % (pre, chars(les.get(pre, 'le')))
     out += "/-- `if name.endswith(counterStrip): name = name[:-counterStripLen]` in `CounterMetricFamily.__init__` -/\n"
+    out += 'def counterStrips : Bool := %s\n' % ('true' if strip[2] else 'false')
     out += 'def counterStrip : List Char := %s\n' % chars(strip[0])
     out += 'def counterStripLen : Nat := %d\n' % strip[1]
     return out + footer(TARGET)
@@ -103,9 +104,7 @@ def _emit(ok, types, sufs, les, strip, why=''):
 
 def generate(repo):
     types, sufs, les = {}, {}, {}
-    # harmless default for the strip: a suffix no name ends with... the empty suffix would strip everything, so use a
-    # non-empty default that keeps the model type-correct; extractOk = false is what matters then
-    strip = ('_total', 6)
+    strip = ('_total', 6, True)
     try:
         tree = parse(repo, SOURCES[0])
         for cls, pre, sites in CLASSES:
@@ -134,9 +133,8 @@ def generate(repo):
         try:
             strip = _counter_strip(find_func(tree, '__init__', cls='CounterMetricFamily'))
         except Fail as e:
-            # model the code that exists: no strip statement -> a suffix longer than any name cannot match; keep the
-            # model buildable and flag the site
-            return _emit(False, types, sufs, les, ('', 0), str(e))
+            # model the code that exists: no strip statement -> the model does not strip either; the site is flagged
+            return _emit(False, types, sufs, les, ('_total', 6, False), str(e))
         # Metric.add_sample: appends exactly one Sample built from its arguments
         a = find_func(tree, 'add_sample', cls='Metric')
         body = [s for s in a.body if not (isinstance(s, ast.Expr) and isinstance(s.value, ast.Constant))]
